@@ -1,0 +1,8 @@
+//go:build !verif
+
+package kgo
+
+// verifPoint marks a point between critical sections where the verification
+// harness (build tag "verif") may inject a scheduling delay. Without the tag
+// it is an empty function that the compiler inlines away.
+func verifPoint(string) {}
